@@ -57,13 +57,14 @@ THEOREMS = [
     # sv.cov = c (attached-later covariances), constructor argument
     "BeyondVerif.C14.run_orbCur",
     "BeyondVerif.C14.attach_same_state",
+    "BeyondVerif.C14.attach_inv",
     "BeyondVerif.C14.attach_characterised",
     "BeyondVerif.C14.attach_frame_targets",
+    "BeyondVerif.C14.attach_local",
     "BeyondVerif.C14.attach_home_local",
     "BeyondVerif.C14.attach_follows_state",
-    "BeyondVerif.C14.attach_reframed_local_partial",
-    "BeyondVerif.C14.attachFix_inv",
-    "BeyondVerif.C14.attachFix_path_independent",
+    "BeyondVerif.C14.attach_path_independent",
+    "BeyondVerif.C14.attachOld_characterised",
     "BeyondVerif.C14.ctor_supported_iff",
     "BeyondVerif.C14.ctor_obj_first_hop",
     "BeyondVerif.CovHeap.attach_self",
@@ -91,7 +92,8 @@ THEOREMS = [
     "BeyondVerif.C14W.old_setter_local_after_reframe_differs",
     "BeyondVerif.C14W.old_setter_frame_after_local_recovers",
     "BeyondVerif.C14W.current_model_path_independent",
-    "BeyondVerif.C14W.attached_reframed_local_differs",
+    "BeyondVerif.C14W.old_attach_reframed_local_differs",
+    "BeyondVerif.C14W.current_attach_path_independent",
     "BeyondVerif.C14W.memo_keyed_without_state_confuses_states",
     "BeyondVerif.C14W.shared_dict_relabels_source",
     "BeyondVerif.C14W.laws",
@@ -112,11 +114,11 @@ LEVEL_TEXT = ("Lean theorems about a state-machine model of Cov (tag, _orb_frame
               "no hypothesis but X^2+Y^2<1 of the CIO series and a non-degenerate state; from any current frame the hop to QSW/TNW applies to_local(x0) M(f->F0) whose velocity<-position "
               "block carries the rate of an Earth-fixed frame (builtin_hop_to_local, local_after_rotating_blocks) and no block-diagonal matrix can stand for it (direct_local_wrong_of_rate); "
               "to_local is equivariant under rate-free rotations in matrix form (realLocal_equivariant, builtin_locEquiv). "
-              "Attached-later covariances (sv.cov = c, Props/C14Attach.lean): after the attachment, whatever frame the state is expressed in, every later sequence ends as Mt C0 Mt^T "
-              "with the new coordinates read in _orb_frame (attach_characterised): regular targets and 'follows its state' are right at full strength (attach_frame_targets, "
-              "attach_follows_state), QSW/TNW are right when the state is expressed in the frame the covariance was built in (attach_home_local) and are NOT otherwise "
-              "(attach_reframed_local_partial + kernel-checked counter-witness attached_reframed_local_differs: open finding C14-attach-stale-orb-frame); the patched setter is right for "
-              "every target (attachFix_path_independent). The same model text, instantiated with floats, is compared with the real Cov on random histories (cov hops, state hops, state copies, "
+              "Attached-later covariances (sv.cov = c, Props/C14Attach.lean; the Cov.orb setter re-seats `_orb_frame` with the private copy since eca9727): after the attachment, whatever frame g the state is "
+              "expressed in, the covariance is the covariance M(F0->g) C0 M^T of a state of frame g (attach_inv) and every later sequence ends as (Mt_g M) C0 (Mt_g M)^T (attach_characterised): regular targets "
+              "and 'follows its state' at full strength (attach_frame_targets, attach_follows_state), QSW/TNW = to_local(x') M(F0->g) (attach_local), and for the state the covariance was built for, "
+              "expressed in any frame along which to_local is equivariant (every rate-free rotation: builtin_locEquiv), full path independence for every target (attach_path_independent; before the fix only a "
+              "_partial held: attachOld_characterised + regression witness old_attach_reframed_local_differs, finding C14-attach-stale-orb-frame fixed). The same model text, instantiated with floats, is compared with the real Cov on random histories (cov hops, state hops, state copies, "
               "re-attachments) fed with the real conversion matrices. "
               "Several objects in one process: a heap model (Model/CovHeap.lean) of the cells Cov objects are made of - array memory, `_data` dict, private state copy, "
               "`_orb_frame` - with the cell sharing that Cov.__new__, Cov.copy, __array_finalize__ (k * c, a + b, views, copy.copy: a dict of its own, the template's `_orb_frame`), pickling and sv.cov = c produce; no memo. "
@@ -130,8 +132,7 @@ LEVEL_NOTE = ("numpy views share memory with their base by definition (modelled,
               "since c5f38c8 and convert like any covariance (derived_path_independent); the state machine of Cov is hand-written and tied by correspondence (the conversion matrices it is "
               "proved about are C02's translated model, tied to the code by C02's correspondence; the driver is fed the real matrices); through G50 the position-block spectrum is preserved to "
               "1e-15 only (constant matrix given in decimals: builtin_pos_block_spectrum_partial excludes G50); R -> double gap by tolerance only; a Cov constructed with the name of a frame "
-              "is outside the model, explicitly (CtorArg.name, ctor_supported_iff; two open findings); QSW/TNW of a covariance attached while its state is expressed in another frame are wrong "
-              "in the code (open finding, model faithful); Lean kernel + propext/Classical.choice/Quot.sound")
+              "is outside the model, explicitly (CtorArg.name, ctor_supported_iff; two open findings); Lean kernel + propext/Classical.choice/Quot.sound")
 TECHNIQUE = "Lean 4 proof (invariant over all hop sequences, Mathlib matrices; hypotheses discharged from C02's translated model of the conversions and the list model of to_local) + kernel-decided witnesses + differential correspondence of the same generic model on floats"
 TRUSTED = [
     "lean/BeyondVerif/Model/Cov.lean: hand-written model of Cov.frame setter / Cov.copy / StateVector.frame setter / StateVector.cov setter (attach), generic in the matrix type; tied to beyond/orbits/cov.py and statevector.py by the correspondence run (histories of cov hops, state hops, state copies, re-attachments; tags exact, matrices rtol 1e-9)",
@@ -158,7 +159,7 @@ NOT_COVERED = [
 ]
 OPEN = [
     "a Cov constructed with the *name* of a frame (documented `frame (str)`, used by io/ccsds/cov.py: supported according to the docstring) is outside the model - stated in the model (CtorArg.name, ctor_supported_iff): the real setter raises AttributeError and the covariance does not follow its state (known findings C14-frame-name-tag-unconvertible / -not-following, open; proposed_fixes/C14-cov-frame-name-not-resolved.diff not applied: behaviour change at CCSDS load); oracle only",
-    "`sv.cov = c` re-seats the private copy of `c` in the frame the state is expressed in now without updating `_orb_frame`: QSW/TNW of a covariance attached to its state while the state is expressed in another frame are wrong (known finding C14-attach-stale-orb-frame, open; proposed_fixes/C14-attach-keeps-orb-frame.diff, proved right on the model: attachFix_path_independent); attach_reframed_local_partial says what the code computes",
+    "attach_path_independent takes equivariance of to_local along F0 -> g as a hypothesis (hEq); it is discharged for every rate-free rotation (builtin_locEquiv) but 'the conversion between two non-rotating built-in frames is a rate-free rotation' (zero velocity<-position block of bConv between NONROT frames) is not proved from C02's model; the oracle family attached-later checks it numerically",
     "the model identifies a frame with its name; Frame objects compare by identity and unpickling rebuilds them, so an unpickled covariance attached on its own to a state does not follow it (known finding C14-unpickled-frame-identity, open; proposed_fixes/C14-frame-identity-after-pickle.diff); the heap correspondence keeps these two situations out of its sequences, the oracle family `unpickled` reports them",
     "the Cov state machine itself (Model/Cov.lean, Model/CovHeap.lean) is hand-written, not translated from the AST of cov.py: a changed branch of the setter is noticed by the correspondence, not by a regenerated Lean term",
 ]
